@@ -331,7 +331,11 @@ fn normalize_name(origin: &str, name: String) -> String {
 pub struct Timestamp(u64);
 
 /// Tracks the last timestamp returned by [`Timestamp::now`] to ensure monotonicity.
+#[cfg(not(iroh_verif))]
 static LAST_TIMESTAMP: AtomicU64 = AtomicU64::new(0);
+#[cfg(iroh_verif)]
+static LAST_TIMESTAMP: iroh_base::verif::sync::AtomicU64 =
+    iroh_base::verif::sync::AtomicU64::new(0);
 
 impl Timestamp {
     /// Returns a strictly monotonic timestamp.
@@ -344,6 +348,8 @@ impl Timestamp {
             .duration_since(SystemTime::UNIX_EPOCH)
             .expect("system time before UNIX epoch")
             .as_micros() as u64;
+        #[cfg(iroh_verif)]
+        let micros = iroh_base::verif::wall_clock_micros().unwrap_or(micros);
         // Ensure strictly monotonic: if the clock went backward or two calls
         // land in the same microsecond, we increment from the last value.
         let mut last = LAST_TIMESTAMP.load(Ordering::Relaxed);
